@@ -327,6 +327,21 @@ def run(ctx):
                 if col.dtype != np.float32 or col.shape != (len(sub), 3):
                     ctx.tie('halo column dtype', '%s%s %s: %s %s' % (rnv, com, w, col.dtype, col.shape))
                     continue
+                # oracle (independent of the model): the column named w must hold axis w of the implementation's
+                # own decode of the same codes, whatever subset of Min/Mid/Maj was requested
+                impl_axis = (minor, middle, major)[ref[w]][perm[:len(sub)]].astype(np.float32)
+                wrong = ~np.all(col == impl_axis, axis=1)
+                if wrong.any():
+                    i = int(np.flatnonzero(wrong)[0])
+                    held = [n for n, a in (('Min', minor), ('Mid', middle), ('Maj', major))
+                            if np.array_equal(col[i], a[perm[i]].astype(np.float32))]
+                    ctx.fail('halo column %s_eigenvecs%s%s does not hold the decoded %s axis when %s is requested'
+                             % (rnv, w, com, w, '+'.join(which)),
+                             {'code': int(sub[i]), 'column': '%s_eigenvecs%s%s' % (rnv, w, com), 'requested': list(which),
+                              'n_rows_wrong': int(wrong.sum())},
+                             {'column_value': col[i].tolist(), 'holds_axis': held},
+                             {'expected_axis_%s' % w: impl_axis[i].tolist()},
+                             key='loader-column-axis:%s' % '+'.join(which))
                 m32 = mtri[perm[:len(sub)], ref[w], :].astype(np.float32)
                 d = np.abs(col.astype(np.float64) - m32.astype(np.float64))
                 maxdiff32 = max(maxdiff32, float(np.nanmax(d)))
